@@ -109,12 +109,12 @@ class ForwardMarketSDEFunction(SDEFunction):
         if self.tenors[0] > t:
             return self._sigma
         else:
-            res = self._sigma.copy()
+            tenors = np.asarray(self.tenors, dtype=float)
+            # rate i covers [T_i, T_i+1]: factor 1 up to T_i, linearly down to 0 at T_i+1
             g = np.minimum(
-                1, np.maximum(0, self.tenors - t) / (self.tenors[1:] - self.tenors[:-1])
+                1, np.maximum(0, tenors[1:] - t) / (tenors[1:] - tenors[:-1])
             )
-            res = res * np.diag(g)
-            return res
+            return self._sigma * g[:, np.newaxis]
 
     def __call__(self, t: float, x: np.array) -> np.array:
         return self.sigma(t) * x
